@@ -20,10 +20,16 @@
   hexadecimal digits, no sign, value below 2^32 (no reduction modulo 2^32).
   `receiveUnit_invalid_fragment` (repaired code, exact): a fragment that `receiveFragment` rejects
   leaves the peer tag as it was before the call, even when its prefix named a well-formed sender.
+  `receiveFragment_run_of_prefix`, `receiveFragment_discarded_unbinds`, `receiveFragment_rejected_unbinds`,
+  `receiveUnit_rejected_fragment_unbinds` (repaired code, Proofs.Fixes3): a fragment that is for another
+  instance (ignored), does not parse (rejected) or is illegally numbered (discarded) leaves the peer tag,
+  the protocol version and the long-term key selected for it exactly as they were before the call —
+  whatever looking at its prefix had committed the conversation to.
 -/
 
 import Proofs.ConvLife
 import Proofs.Frag
+import Proofs.Fixes3
 namespace Otr.C15
 open Otr
 
@@ -123,5 +129,22 @@ theorem receiveUnit_invalid_fragment : type_of% @Otr.receiveUnit_invalid_fragmen
 
 theorem receiveUnit_invalid_fragment_theirTag : type_of% @Otr.receiveUnit_invalid_fragment_theirTag :=
   @Otr.receiveUnit_invalid_fragment_theirTag
+
+/-- repaired code (exact): `receiveFragment` in terms of the prefix parser; ignored, rejected and discarded
+    fragments all unbind the conversation -/
+theorem receiveFragment_run_of_prefix : type_of% @Otr.receiveFragment_run_of_prefix :=
+  @Otr.receiveFragment_run_of_prefix
+
+/-- an ignored, unparsable or illegally numbered fragment: version, key choice and peer tag as before the call -/
+theorem receiveFragment_discarded_unbinds : type_of% @Otr.receiveFragment_discarded_unbinds :=
+  @Otr.receiveFragment_discarded_unbinds
+
+/-- a fragment that `receiveFragment` rejects: version, key choice and peer tag as before the call -/
+theorem receiveFragment_rejected_unbinds : type_of% @Otr.receiveFragment_rejected_unbinds :=
+  @Otr.receiveFragment_rejected_unbinds
+
+/-- … and after the whole `receiveUnit` -/
+theorem receiveUnit_rejected_fragment_unbinds : type_of% @Otr.receiveUnit_rejected_fragment_unbinds :=
+  @Otr.receiveUnit_rejected_fragment_unbinds
 
 end Otr.C15
